@@ -1,4 +1,16 @@
 // bgsim worker: loops over run indices (one seed = one exactly repeatable run), or executes one plan file.
+#include <string>
+// Defined BEFORE any BaseGraph header is included: objects of a translation unit are initialised in order of definition, so this
+// one's constructor (body further down) runs before the namespace-scope constants of fileio.hpp are initialised - the situation of
+// a client that writes or loads a graph from the constructor of a global object.
+namespace bgsim_early {
+struct Early {
+    Early();
+    std::string bytes;
+    bool roundTrip = false;
+};
+static Early g_early;
+} // namespace bgsim_early
 #include <csignal>
 #include <cstdio>
 #include <cstdlib>
@@ -59,6 +71,22 @@ extern "C" __attribute__((used, visibility("default"))) const char *__tsan_defau
 
 static long g_watchdogCpuS = BGSIM_SANITIZED ? 120 : 45;
 static std::string g_dir;
+bgsim_early::Early::Early() {
+    const std::string p = "/dev/shm/bgsim.early." + std::to_string((long)getpid());
+    try {
+        BaseGraph::LabeledDirectedGraph<int> g(3);
+        g.addEdge(1, 2, 300);
+        BaseGraph::io::writeBinaryEdgeList(g, p);
+        gs::readFileBytes(p, bytes);
+        auto h = BaseGraph::io::loadBinaryEdgeList<BaseGraph::LabeledDirectedGraph, int>(p);
+        roundTrip = h.getSize() == 3 && h.getEdgeNumber() == 1 && h.hasEdge(1, 2, 300);
+    } catch (...) {}
+    remove(p.c_str());
+}
+namespace simdisk {
+const std::string &earlyBytes() { return bgsim_early::g_early.bytes; }
+bool earlyRoundTrip() { return bgsim_early::g_early.roundTrip; }
+} // namespace simdisk
 static int rmOne(const char *p, const struct stat *, int, struct FTW *) { return remove(p); }
 static void cleanup() {
     if (!g_dir.empty()) nftw(g_dir.c_str(), rmOne, 16, FTW_DEPTH | FTW_PHYS);
